@@ -38,7 +38,11 @@ type FuncResult struct {
 }
 
 func NewVC(g *Global, fn *ssa.Function, c *Contract) *VC {
-	return &VC{G: g, fn: fn, key: funcKey(fn), contract: c, declared: map[string]bool{}, compSort: map[string]string{},
+	key := ""
+	if fn != nil {
+		key = funcKey(fn)
+	}
+	return &VC{G: g, fn: fn, key: key, contract: c, declared: map[string]bool{}, compSort: map[string]string{},
 		vals: map[ssa.Value]Val{}, params: map[string]Val{}, compMeta: map[string]compMetaT{}, ordinals: map[string]int{}, assumptions: map[string]bool{},
 		trustedUsed: map[string]bool{}, opaqueCalls: map[string]bool{}, strLits: map[string]Term{}}
 }
@@ -478,6 +482,18 @@ func (vc *VC) operandOnEdge(ph *ssa.Phi, pred, b *ssa.BasicBlock) Val {
 // phis maps the header phis to the values they have on the edge/in the state considered.
 func (vc *VC) loopEnv(li *loopInfo, st *State, phis map[*ssa.Phi]Val) *Env {
 	env := vc.baseEnv(st)
+	// loop-carried variables shadow parameters of the same name
+	for _, in := range li.header.Instrs {
+		ph, ok := in.(*ssa.Phi)
+		if !ok {
+			break
+		}
+		if ph.Comment != "" {
+			if v, ok := phis[ph]; ok {
+				env.vars[ph.Comment] = v
+			}
+		}
+	}
 	env.local = func(name string) (Val, bool) {
 		// loop-carried variables by source name
 		for _, in := range li.header.Instrs {
@@ -731,7 +747,7 @@ func (vc *VC) heapTypingAxioms(st *State, comp string) {
 		return
 	}
 	switch meta.kind {
-	case LField, LDeref:
+	case LField, LDeref, LGhost:
 		vc.axiom(fmt.Sprintf("(forall ((o Int)) (! %s :pattern ((select %s o))))", body(sel(h, "o")), h))
 	case LElem:
 		vc.axiom(fmt.Sprintf("(forall ((a Int) (i Int)) (! %s :pattern ((select (select %s a) i))))", body(sel(sel(h, "a"), "i")), h))
@@ -972,6 +988,11 @@ func (vc *VC) alloc(st *State, x *ssa.Alloc) {
 	t := derefType(x.Type())
 	id := vc.allocID(st)
 	p := Val{T: x.Type(), K: KPtr, S: id}
+	if at, ok := t.Underlying().(*types.Array); ok {
+		vc.zeroElems(st, at.Elem(), id)
+		vc.vals[x] = p
+		return
+	}
 	z := vc.zeroVal(t)
 	vc.storeV(st, p, z)
 	vc.vals[x] = p
